@@ -1,4 +1,5 @@
 (* C08 - umbrella: Base (infrastructure, sync.Once invariant), Safety (writer protocol, store = commits),
    Life (scheduledCount accounting, termination of the writer, Stop waits), Complete (what Stop guarantees),
+   Value (per-object invariants: an accepted object is written with its last content), Progress (no stuck state),
    Witness (pinned defects D08a/D08b, regressions). *)
-From Verif.C08_Batch Require Export Model Base Safety Life Complete Witness.
+From Verif.C08_Batch Require Export Model Base Safety Life Complete Value Progress Witness.
